@@ -20,7 +20,7 @@ import (
 
 type c07Step struct {
 	AtMs       int    `json:"at_ms"`
-	Op         string `json:"op"` // req | pause | resume | stop | redeploy
+	Op         string `json:"op"` // req | pause | resume | stop | redeploy | rollout-* | flip (resume and, without letting anything run in between, pause again)
 	MaxPauseMs int    `json:"max_pause_ms,omitempty"`
 	Msg        string `json:"msg,omitempty"`
 	Kind       string `json:"kind,omitempty"` // req: plain | cookie | post | health-get | health-post | health-lookalike
@@ -70,9 +70,21 @@ func c07Gen(t *rapid.T) c07Plan {
 				}
 				p.Steps = append(p.Steps, st)
 			}
-			switch rapid.IntRange(0, 3).Draw(t, "release") {
+			switch rapid.IntRange(0, 4).Draw(t, "release") {
 			case 0, 1:
 				p.Steps = append(p.Steps, c07Step{AtMs: gap(), Op: "resume"})
+			case 4:
+				// more held requests, then resume and pause again back to back: the ones held so far go, later ones wait
+				for i, n := 0, rapid.IntRange(0, 12).Draw(t, "held-more"); i < n; i++ {
+					p.Steps = append(p.Steps, c07Step{AtMs: at, Op: "req", Kind: "plain"})
+				}
+				p.Steps = append(p.Steps, c07Step{AtMs: gap(), Op: "flip", MaxPauseMs: rapid.SampledFrom([]int{100, 500, 5000}).Draw(t, "max-pause3")})
+				for i, n := 0, rapid.IntRange(0, 2).Draw(t, "held-after-flip"); i < n; i++ {
+					p.Steps = append(p.Steps, c07GenReq(t, gap()))
+				}
+				if rapid.Bool().Draw(t, "resume-after-flip") {
+					p.Steps = append(p.Steps, c07Step{AtMs: gap(), Op: "resume"})
+				}
 			case 2:
 				p.Steps = append(p.Steps, c07Step{AtMs: gap(), Op: "stop", Msg: rapid.SampledFrom([]string{"", "maintenance-A", "maintenance-B"}).Draw(t, "msg")})
 			}
@@ -87,11 +99,11 @@ func c07Gen(t *rapid.T) c07Plan {
 	n := rapid.IntRange(3, 16).Draw(t, "nsteps")
 	for i := 0; i < n; i++ {
 		st := c07Step{AtMs: gap()}
-		st.Op = rapid.SampledFrom([]string{"req", "req", "req", "req", "req", "pause", "pause", "resume", "stop", "redeploy", "rollout-deploy", "rollout-set", "rollout-stop"}).Draw(t, "op")
+		st.Op = rapid.SampledFrom([]string{"req", "req", "req", "req", "req", "pause", "pause", "resume", "stop", "redeploy", "rollout-deploy", "rollout-set", "rollout-stop", "flip"}).Draw(t, "op")
 		switch st.Op {
 		case "req":
 			st = c07GenReq(t, st.AtMs)
-		case "pause":
+		case "pause", "flip":
 			st.MaxPauseMs = rapid.SampledFrom([]int{1, 100, 101, 500, 5000}).Draw(t, "max-pause")
 		case "stop":
 			st.Msg = rapid.SampledFrom([]string{"", "maintenance-A", "maintenance-B"}).Draw(t, "msg")
@@ -109,6 +121,7 @@ type c07Expect struct {
 	msg    string // stop message
 	tie    bool
 	held   bool // arrived while the service was paused
+	flip   bool // released by a resume that is followed at once by another pause
 }
 
 func c07Run(t *testing.T, p c07Plan) (res vfResult) {
@@ -132,7 +145,7 @@ func c07Run(t *testing.T, p c07Plan) (res vfResult) {
 			sets = append(sets, s)
 			return s
 		}
-		if err := r.DeployService("svc", mkSet(), opts, to, 5*time.Second, time.Second); err != nil {
+		if err := vfDeploy(r, "svc", mkSet(), opts, to, 5*time.Second, time.Second); err != nil {
 			res.failf("setup-failed", "deploy: %v", err)
 			return
 		}
@@ -161,6 +174,9 @@ func c07Run(t *testing.T, p c07Plan) (res vfResult) {
 				state, failAfter, msg = "paused", vfMs(st.MaxPauseMs), ""
 			case "resume":
 				state, msg = "running", ""
+			case "flip":
+				timeline = append(timeline, change{at: at, state: "running", set: cur, idx: i, rset: rset, split: split})
+				state, failAfter, msg = "paused", vfMs(st.MaxPauseMs), ""
 			case "stop":
 				state, msg = "stopped", st.Msg
 			case "redeploy":
@@ -218,7 +234,7 @@ func c07Run(t *testing.T, p c07Plan) (res vfResult) {
 					break
 				}
 				if c.state == "running" {
-					return c07Expect{kind: "forward", at: c.at, set: pick(c), tie: c.at == dl, held: true}
+					return c07Expect{kind: "forward", at: c.at, set: pick(c), tie: c.at == dl, held: true, flip: p.Steps[c.idx].Op == "flip"}
 				}
 				if c.state == "stopped" {
 					return c07Expect{kind: "stopped", at: c.at, msg: c.msg, tie: c.at == dl, held: true}
@@ -268,17 +284,17 @@ func c07Run(t *testing.T, p c07Plan) (res vfResult) {
 					// a slow request keeps the first pause draining; the pause is repeated (other timeouts) meanwhile
 					slow := w.goDo(h, vfNewRequest("GET", "svc.test", "/slow", &vfCtl{ID: "slow", DurMs: 200}, nil))
 					synctest.Wait()
-					p1 := w.goCmd(func() error { return r.PauseService("svc", 100*time.Millisecond, vfMs(st.MaxPauseMs)) })
+					p1 := w.goCmd(func() error { return vfPause(r, "svc", 100*time.Millisecond, vfMs(st.MaxPauseMs)) })
 					time.Sleep(10 * time.Millisecond)
 					synctest.Wait()
-					p2 := w.goCmd(func() error { return r.PauseService("svc", 500*time.Millisecond, 5*time.Second) })
+					p2 := w.goCmd(func() error { return vfPause(r, "svc", 500*time.Millisecond, 5*time.Second) })
 					<-p1.done
 					<-p2.done
 					<-slow.done
 					synctest.Wait()
 					heldReq := w.goDo(h, vfNewRequest("GET", "svc.test", "/held", &vfCtl{ID: "held"}, nil))
 					synctest.Wait()
-					if cr := w.runCmd(func() error { return r.ResumeService("svc") }); cr.Err != nil || cr.Panicked != "" {
+					if cr := w.runCmd(func() error { return vfResume(r, "svc") }); cr.Err != nil || cr.Panicked != "" {
 						res.failf("command-failed", "resume: %v %s", cr.Err, cr.Panicked)
 						return
 					}
@@ -302,7 +318,7 @@ func c07Run(t *testing.T, p c07Plan) (res vfResult) {
 						gatePend = w.do(h, vfNewRequest("GET", "svc.test", "/gated", &vfCtl{ID: "gated"}, nil))
 					})
 					synctest.Wait()
-					pc := w.goCmd(func() error { return r.PauseService("svc", time.Second, vfMs(st.MaxPauseMs)) })
+					pc := w.goCmd(func() error { return vfPause(r, "svc", time.Second, vfMs(st.MaxPauseMs)) })
 					synctest.Wait()
 					sc.stop() // the gated request claims while pause is draining
 					vfCurSched.Store(nil)
@@ -317,42 +333,55 @@ func c07Run(t *testing.T, p c07Plan) (res vfResult) {
 					res.NonTrivial = true
 					return // the shape costs virtual time; the timeline oracle is not applied to this case
 				}
-				if cr := w.runCmd(func() error { return r.PauseService("svc", 50*time.Millisecond, vfMs(st.MaxPauseMs)) }); cr.Err != nil || cr.Panicked != "" {
+				if cr := w.runCmd(func() error { return vfPause(r, "svc", 50*time.Millisecond, vfMs(st.MaxPauseMs)) }); cr.Err != nil || cr.Panicked != "" {
 					res.failf("command-failed", "step %d pause: %v %s", i, cr.Err, cr.Panicked)
 					return
 				}
 				w.noteWait(vfMs(st.MaxPauseMs))
 			case "resume":
-				if cr := w.runCmd(func() error { return r.ResumeService("svc") }); cr.Err != nil || cr.Panicked != "" {
+				if cr := w.runCmd(func() error { return vfResume(r, "svc") }); cr.Err != nil || cr.Panicked != "" {
 					res.failf("command-failed", "step %d resume: %v %s", i, cr.Err, cr.Panicked)
 					return
 				}
+			case "flip":
+				cr := w.runCmd(func() error {
+					if err := vfResume(r, "svc"); err != nil {
+						return err
+					}
+					return vfPause(r, "svc", 50*time.Millisecond, vfMs(st.MaxPauseMs))
+				})
+				if cr.Err != nil || cr.Panicked != "" {
+					res.failf("command-failed", "step %d resume+pause: %v %s", i, cr.Err, cr.Panicked)
+					return
+				}
+				w.noteWait(vfMs(st.MaxPauseMs))
+				res.label("resume-then-pause-back-to-back")
 			case "stop":
-				if cr := w.runCmd(func() error { return r.StopService("svc", 50*time.Millisecond, st.Msg) }); cr.Err != nil || cr.Panicked != "" {
+				if cr := w.runCmd(func() error { return vfStop(r, "svc", 50*time.Millisecond, st.Msg) }); cr.Err != nil || cr.Panicked != "" {
 					res.failf("command-failed", "step %d stop: %v %s", i, cr.Err, cr.Panicked)
 					return
 				}
 			case "rollout-deploy":
 				set := mkSet()
-				if cr := w.runCmd(func() error { return r.SetRolloutTargets("svc", set, 5*time.Second, 50*time.Millisecond) }); cr.Err != nil || cr.Panicked != "" {
+				if cr := w.runCmd(func() error { return vfRolloutDeploy(r, "svc", set, 5*time.Second, 50*time.Millisecond) }); cr.Err != nil || cr.Panicked != "" {
 					res.failf("command-failed", "step %d rollout deploy: %v %s", i, cr.Err, cr.Panicked)
 					return
 				}
 				res.label("rollout-op")
 			case "rollout-set":
-				cr := w.runCmd(func() error { return r.SetRolloutSplit("svc", 100, nil) })
+				cr := w.runCmd(func() error { return vfRolloutSet(r, "svc", 100, nil) })
 				if cr.Panicked != "" {
 					res.failf("command-failed", "step %d rollout set: %s", i, cr.Panicked)
 					return
 				}
 			case "rollout-stop":
-				if cr := w.runCmd(func() error { return r.StopRollout("svc") }); cr.Err != nil || cr.Panicked != "" {
+				if cr := w.runCmd(func() error { return vfRolloutStop(r, "svc") }); cr.Err != nil || cr.Panicked != "" {
 					res.failf("command-failed", "step %d rollout stop: %v %s", i, cr.Err, cr.Panicked)
 					return
 				}
 			case "redeploy":
 				set := mkSet()
-				if cr := w.runCmd(func() error { return r.DeployService("svc", set, opts, to, 5*time.Second, 50*time.Millisecond) }); cr.Err != nil || cr.Panicked != "" {
+				if cr := w.runCmd(func() error { return vfDeploy(r, "svc", set, opts, to, 5*time.Second, 50*time.Millisecond) }); cr.Err != nil || cr.Panicked != "" {
 					res.failf("command-failed", "step %d redeploy: %v %s", i, cr.Err, cr.Panicked)
 					return
 				}
@@ -397,7 +426,13 @@ func c07Run(t *testing.T, p c07Plan) (res vfResult) {
 			switch e.kind {
 			case "forward":
 				if rp.Status != 200 || rp.Target == "" {
-					res.failf("not-forwarded", "%s; got %v", desc, rp)
+					sig := "not-forwarded"
+					if e.flip && rp.Status == 503 && rp.Target == "" {
+						// the listed finding: the released request had passed the pause gate when the next pause was issued and
+						// claimed a target while that pause was draining
+						sig = "refused-by-pause"
+					}
+					res.failf(sig, "%s; got %v", desc, rp)
 					return
 				}
 				if !vfContains(sets[e.set], rp.Target) {
